@@ -11,6 +11,7 @@ import (
 	sql "github.com/metrico/qryn/reader/utils/sql_select"
 	"github.com/metrico/qryn/zzverif/vrt"
 	"github.com/prometheus/prometheus/model/labels"
+	"github.com/prometheus/prometheus/storage"
 )
 
 // VH_C17_prom_matchers: the Prometheus matcher set of a select is handed to the series-selection planner
@@ -44,4 +45,83 @@ func VH_C17_prom_matchers() {
 	vrt.Assert(err == nil, "reference-renders")
 	vrt.Assert(gs == ws, "every-matcher-passed-with-its-own-label-operator-and-value")
 	vrt.Reach("end")
+}
+
+// VH_C17_range_window_filter: for range-vector functions with step > range the raw-sample statement keeps
+// only samples that can fall into some evaluation window [t-range, t] (t a multiple of step): a sample at
+// offset o = timestamp_ms mod step is kept iff o == 0 or o >= step-range - windows are closed on both sides
+// (Prometheus). The offset is symbolic; the filter is read from the condition tree of the statement.
+func VH_C17_range_window_filter() {
+	vrt.Unwind(300)
+	step := []int64{10000, 60000}[vrt.Choice("step-ms", 2)]
+	rng := []int64{4000, 5000}[vrt.Choice("range-ms", 2)]
+	fn := []string{"rate", "count_over_time", "sum_over_time"}[vrt.Choice("function", 3)]
+	off := vrt.Int64("sample-offset-in-step-ms")
+	vrt.Assume(off >= 0)
+	vrt.Assume(off < step)
+	ctx := &shared.PlannerContext{From: time.Unix(1700000001, 0), To: time.Unix(1700000600, 0),
+		SamplesTableName: "samples_v3", TimeSeriesGinTableName: "time_series_gin", CHSqlCtx: sql.DefaultCtx(), Type: 2}
+	res, err := TranspileLabelMatchers(&storage.SelectHints{Start: 1700000001000, End: 1700000600000, Step: step, Range: rng, Func: fn},
+		ctx, &labels.Matcher{Type: labels.MatchEqual, Name: "job", Value: "a"})
+	vrt.Assert(err == nil, "statement-built")
+	// find or( ==(x,0), >=(x, c) ) over x = "timestamp_ms % step"
+	var ors []sql.SQLCondition
+	var walk func(c sql.SQLCondition)
+	walk = func(c sql.SQLCondition) {
+		if c == nil {
+			return
+		}
+		if c.GetFunction() == "or" {
+			ors = append(ors, c)
+		}
+		for _, e := range c.GetEntity() {
+			if sub, ok := e.(sql.SQLCondition); ok {
+				walk(sub)
+			}
+		}
+	}
+	walk(res.Query.GetWhere())
+	vrt.Assert(len(ors) == 1, "one-window-filter")
+	kept := false
+	for _, e := range ors[0].GetEntity() {
+		cmp, ok := e.(sql.SQLCondition)
+		vrt.Assert(ok && len(cmp.GetEntity()) == 2, "filter-shape-understood")
+		lhs, _ := cmp.GetEntity()[0].String(sql.DefaultCtx())
+		rhs, _ := cmp.GetEntity()[1].String(sql.DefaultCtx())
+		vrt.Assert(lhs == "timestamp_ms % "+vhItoa(step), "filter-is-on-the-offset-in-the-step")
+		c := vhAtoi(rhs)
+		switch cmp.GetFunction() {
+		case "==":
+			kept = kept || off == c
+		case ">=":
+			kept = kept || off >= c
+		case ">":
+			kept = kept || off > c
+		default:
+			vrt.Assert(false, "filter-operator-understood")
+		}
+	}
+	want := off == 0 || off >= step-rng
+	vrt.Assert(kept == want, "sample-kept-iff-it-can-fall-into-a-closed-window")
+	vrt.Reach("end")
+}
+
+func vhItoa(n int64) string {
+	if n == 0 {
+		return "0"
+	}
+	s := ""
+	for n > 0 {
+		s = string(rune('0'+n%10)) + s
+		n /= 10
+	}
+	return s
+}
+
+func vhAtoi(s string) int64 {
+	var n int64
+	for i := 0; i < len(s); i++ {
+		n = n*10 + int64(s[i]-'0')
+	}
+	return n
 }
